@@ -51,13 +51,13 @@ Section Buf.
       | MidSetOut e => exists v, eval ext op ρ1 e = Ok v /\ dataout cm = v
       end.
   Proof.
-    intros Hok Hmid Hn Hrun. unfold shape_ok in Hok. apply andb_prop in Hok as [Hpre _].
+    intros Hok Hmid Hn Hrun. unfold shape_ok in Hok. apply andb_prop in Hok as [Hok _]. apply andb_prop in Hok as [Hpre _].
     assert (Hpre' : forallb (fun gs => negb (is_init (snd gs))) (sh_pre s) = true).
     { rewrite forallb_forall in *. intros gs Hin. specialize (Hpre gs Hin). unfold plain in Hpre.
       apply andb_prop in Hpre as [Hp _]. apply andb_prop in Hp as [Hp _]. exact Hp. }
     unfold shape_body in Hrun. rewrite run_app in Hrun.
     destruct (run ext op K init_len G (ρ0, cmd0) (sh_pre s)) as [G1 [[ρ1 c1]|e]] eqn:E1; [|inversion Hrun].
-    pose proof (run_G ext op K init_len _ _ _ _ _ E1 Hpre') as HG1. subst G1.
+    pose proof (run_G_any ext op K init_len _ _ _ _ _ E1) as HG1. subst G1.
     cbn [app run guard_holds forallb fst] in Hrun.
     destruct (exec ext op K init_len G (ρ1, c1) (SInit (sh_eo s) (sh_ei s))) as [G2 [[ρ2 c2]|e]] eqn:E2; [|inversion Hrun].
     cbn [exec] in E2.
@@ -74,9 +74,10 @@ Section Buf.
     - (* no statements between __init__ and build_cdb *)
       inversion Hmid; subst mk.
       cbn [app run guard_holds forallb fst exec] in Hrun.
-      destruct (eval_kvs ext op ρ1 (sh_kvs s)); [|inversion Hrun].
-      cbn [g_bits g_len] in Hrun.
-      destruct (encode_cdict a (c_bits K) (zeros n)); inversion Hrun; subst. cbn [datain dataout]. auto.
+      destruct (eval_kvs ext op ρ1 (sh_kvs s)) as [dd|]; [|inversion Hrun].
+      destruct (lookup "opcode" dd) as [[v| | | |]|]; try (inversion Hrun; fail).
+      destruct (init_len v) as [nn|]; [|inversion Hrun].
+      destruct (encode_cdict dd (c_bits K) (zeros nn)); inversion Hrun; subst. cbn [datain dataout]. auto.
     - destruct g1; [|discriminate]. destruct s1; try discriminate.
       + (* self.dataout = e *)
         cbn [mid_of] in Hmid.
@@ -91,9 +92,10 @@ Section Buf.
         cbn [run guard_holds forallb fst exec] in Hrun.
         rewrite eval_eq in Hrun. unfold get in Hrun. rewrite lookup_dict_set_same in Hrun.
         cbn [run guard_holds forallb fst exec cdb dataout datain attrs] in Hrun.
-        destruct (eval_kvs ext op (dict_set ρ1 DOUT v) (sh_kvs s)); [|inversion Hrun].
-        cbn [g_bits g_len] in Hrun.
-        destruct (encode_cdict a (c_bits K) (zeros n)); inversion Hrun; subst. cbn [datain dataout].
+        destruct (eval_kvs ext op (dict_set ρ1 DOUT v) (sh_kvs s)) as [dd|]; [|inversion Hrun].
+        destruct (lookup "opcode" dd) as [[vv| | | |]|]; try (inversion Hrun; fail).
+        destruct (init_len vv) as [nn|]; [|inversion Hrun].
+        destruct (encode_cdict dd (c_bits K) (zeros nn)); inversion Hrun; subst. cbn [datain dataout].
         split; [reflexivity|]. exists v. auto.
       + (* self._private = e *)
         cbn [mid_of] in Hmid. destruct mid; [|discriminate]. inversion Hmid; subst mk. clear Hmid.
@@ -101,8 +103,9 @@ Section Buf.
         destruct (eval ext op ρ1 e) as [va|]; [|inversion Hrun].
         cbn [run guard_holds forallb fst exec cdb dataout datain attrs] in Hrun.
         destruct (eval_kvs ext op ρ1 (sh_kvs s)) as [dd|]; [|inversion Hrun].
-        cbn [g_bits g_len] in Hrun.
-        destruct (encode_cdict dd (c_bits K) (zeros n)); inversion Hrun; subst. cbn [datain dataout]. auto.
+        destruct (lookup "opcode" dd) as [[vv| | | |]|]; try (inversion Hrun; fail).
+        destruct (init_len vv) as [nn|]; [|inversion Hrun].
+        destruct (encode_cdict dd (c_bits K) (zeros nn)); inversion Hrun; subst. cbn [datain dataout]. auto.
   Qed.
 
   (* refusal before anything is built: a guard `if c: raise e` as the first statements *)
